@@ -10,14 +10,24 @@
 (*                                                                         *)
 (* Cache directories may be shared by several users (and repositories);    *)
 (* an entry is in one of the states an interrupted write can leave:        *)
-(*    "none" | "good" | "partial" (proper prefix, empty file included)     *)
+(*    "none" | "good" | "partial" (non-empty proper prefix) | "empty"       *)
 (* Other clients add and delete snapshots behind the cache's back (stale). *)
 (*                                                                         *)
 (* CacheTransparent: what a load returns for user u is a function of the   *)
 (* backend objects and u's keys only.  Mutants: TrustCache (entry used     *)
 (* without verification - the code before fix j), ListFromCache (snapshots *)
 (* taken from the cache directory instead of the backend listing),         *)
-(* SkipTagWhenCached (tag check skipped for cached entries), NoStore.      *)
+(* SkipTagWhenCached (tag check skipped for cached entries), NoStore,      *)
+(* EmptySkipsVerify (a zero-byte entry is neither verified nor replaced by *)
+(* a download - seeded change C18_agent3).                                 *)
+(*                                                                         *)
+(* The chunk side: snapshots 1 and 2 hold the SAME data, so they reference *)
+(* the same chunk of their family.  A client that takes snapshot s uploads *)
+(* the chunk unless the backend has it; deleting the last snapshot that    *)
+(* references a chunk removes it.  ChunksSafe: every listed snapshot has   *)
+(* its chunk.  Mutant SkipUploadKnownFromCache (seeded change C02_agent3): *)
+(* the uploader believes its cache instead of the backend - after another  *)
+(* client's delete the cache is stale and the new snapshot is incomplete.  *)
 (***************************************************************************)
 EXTENDS Naturals, FiniteSets, TLC
 
@@ -28,16 +38,18 @@ DirsDef == {"shared", "private", "off"}
 DirOfDef == [u \in UsersDef |-> CASE u = "a" -> "shared" [] u = "b" -> "private" [] u = "c" -> "shared" [] OTHER -> "off"]
 SidsDef == {1, 2, 3}
 SnapFamDef == [s \in SidsDef |-> IF s = 3 THEN "F2" ELSE "F1"]
+DataOfDef == [s \in SidsDef |-> IF s = 3 THEN "y" ELSE "x"]
 
-CONSTANTS Users, FamOf, Dirs, DirOf, Sids, SnapFam, Mutant
+CONSTANTS Users, FamOf, Dirs, DirOf, Sids, SnapFam, DataOf, Mutant
 \* FamOf[u], SnapFam[s]: key family of a user / of a snapshot; DirOf[u]: cache directory of u ("off" = no cache)
 
 VARIABLES backend,   \* set of snapshot ids listed at the backend
-          cache,     \* [Dirs -> [Sids -> "none" | "good" | "partial"]]
+          chunks,    \* set of <<family, datum>>: chunk objects present at the backend
+          cache,     \* [Dirs -> [Sids -> "none" | "good" | "partial" | "empty"]]
           result     \* last load: [u, out] out = set of <<sid, status>>  status "loaded" | "error"
-vars == <<backend, cache, result>>
+vars == <<backend, chunks, cache, result>>
 
-Init == backend = {} /\ cache = [d \in Dirs |-> [s \in Sids |-> "none"]] /\ result = [u |-> "-", out |-> {}, ideal |-> {}]
+Init == backend = {} /\ chunks = {} /\ cache = [d \in Dirs |-> [s \in Sids |-> "none"]] /\ result = [u |-> "-", out |-> {}, ideal |-> {}]
 
 \* what the command must see, whatever the cache holds
 Ideal(u) == {<<s, "loaded">> : s \in {x \in backend : SnapFam[x] = FamOf[u]}}
@@ -45,7 +57,8 @@ Ideal(u) == {<<s, "loaded">> : s \in {x \in backend : SnapFam[x] = FamOf[u]}}
 LoadOne(u, s, entry) ==
     IF SnapFam[s] # FamOf[u] /\ ~(Mutant = "SkipTagWhenCached" /\ entry # "none") THEN "skipped"       \* invalid tag
     ELSE IF entry = "good" THEN (IF SnapFam[s] = FamOf[u] THEN "loaded" ELSE "error")                  \* foreign snapshot decrypted with the wrong keys
-    ELSE IF entry = "partial" /\ Mutant = "TrustCache" THEN "error"                                     \* json.loads of a truncated entry
+    ELSE IF entry \in {"partial", "empty"} /\ Mutant = "TrustCache" THEN "error"                          \* json.loads of a truncated entry
+    ELSE IF entry = "empty" /\ Mutant = "EmptySkipsVerify" THEN "error"                                  \* b'' is falsy: no digest check, no download
     ELSE IF SnapFam[s] = FamOf[u] THEN "loaded" ELSE "error"                                            \* miss (or rejected entry): download, verify
 
 Load(u) ==
@@ -55,19 +68,26 @@ Load(u) ==
        IN /\ result' = [u |-> u, out |-> {x \in out : x[2] # "skipped"}, ideal |-> Ideal(u)]
           /\ cache' = IF d = "off" \/ Mutant = "NoStore" THEN cache
                       ELSE [cache EXCEPT ![d] = [s \in Sids |-> IF s \in backend /\ SnapFam[s] = FamOf[u] THEN "good" ELSE @[s]]]
-    /\ UNCHANGED backend
+    /\ UNCHANGED <<backend, chunks>>
 \* another client (any cache or none) takes / deletes a snapshot; the deleter removes its own cache entry only
-Add(s) == s \notin backend /\ backend' = backend \cup {s} /\ UNCHANGED <<cache, result>>
+\* user u takes snapshot s: the chunk is uploaded unless it is believed to be stored, then the snapshot object is written
+Chunk(s) == <<SnapFam[s], DataOf[s]>>
+KnownFromCache(u, s) == DirOf[u] # "off" /\ \E t \in Sids : cache[DirOf[u]][t] = "good" /\ Chunk(t) = Chunk(s)
+Add(u, s) == /\ s \notin backend /\ SnapFam[s] = FamOf[u] /\ backend' = backend \cup {s}
+             /\ chunks' = IF Mutant = "SkipUploadKnownFromCache" /\ KnownFromCache(u, s) THEN chunks ELSE chunks \cup {Chunk(s)}
+             /\ UNCHANGED <<cache, result>>
+\* delete removes the snapshot, the chunks nobody else references, and the deleter's own cache entry
 Delete(u, s) == /\ s \in backend /\ SnapFam[s] = FamOf[u] /\ backend' = backend \ {s}
+                /\ chunks' = IF \E t \in backend \ {s} : Chunk(t) = Chunk(s) THEN chunks ELSE chunks \ {Chunk(s)}
                 /\ cache' = IF DirOf[u] = "off" THEN cache ELSE [cache EXCEPT ![DirOf[u]][s] = "none"]
                 /\ UNCHANGED result
-\* an interrupted run leaves a truncated entry (also for snapshots that are listed)
-Interrupt(d, s) == d # "off" /\ cache' = [cache EXCEPT ![d][s] = "partial"] /\ UNCHANGED <<backend, result>>
+\* an interrupted run leaves a truncated entry (also for snapshots that are listed): a proper prefix or an empty file
+Interrupt(d, s) == d # "off" /\ \E st \in {"partial", "empty"} : cache' = [cache EXCEPT ![d][s] = st] /\ UNCHANGED <<backend, chunks, result>>
 
-Next == \/ \E u \in Users : Load(u) \/ \E s \in Sids : Delete(u, s)
-        \/ \E s \in Sids : Add(s)
+Next == \/ \E u \in Users : Load(u) \/ \E s \in Sids : (Delete(u, s) \/ Add(u, s))
         \/ \E d \in Dirs, s \in Sids : Interrupt(d, s)
 Spec == Init /\ [][Next]_vars
 
 CacheTransparent == result.out = result.ideal
+ChunksSafe == \A s \in backend : Chunk(s) \in chunks
 =============================================================================
